@@ -128,6 +128,11 @@ func (e *Encoder) writeMultiLineString(mls orb.MultiLineString, srid int) error 
 	}
 
 	for _, ls := range mls {
+		if ls == nil {
+			// the count above includes this member, it must be written (as empty)
+			ls = orb.LineString{}
+		}
+
 		err := e.Encode(ls, 0)
 		if err != nil {
 			return err
